@@ -5,6 +5,7 @@ package main
 
 import (
 	"crypto/sha256"
+	"crypto/sha512"
 	"encoding/hex"
 	"encoding/json"
 	"fmt"
@@ -16,6 +17,8 @@ import (
 	"strings"
 
 	"github.com/bronlabs/bron-crypto/pkg/base"
+	"github.com/bronlabs/bron-crypto/pkg/base/curves/edwards25519"
+	edwards25519Impl "github.com/bronlabs/bron-crypto/pkg/base/curves/edwards25519/impl"
 	h2c "github.com/bronlabs/bron-crypto/pkg/base/curves/impl/rfc9380"
 	"github.com/bronlabs/bron-crypto/pkg/base/curves/impl/rfc9380/expanders"
 	"github.com/bronlabs/bron-crypto/pkg/base/curves/k256"
@@ -206,6 +209,52 @@ func modelSuites() []modelSuite {
 				return be(e.Bytes()), nil
 			},
 			baseDst: base.Hash2CurveAppTag + bls12381.Hash2CurveSuiteG1, scalarDst: base.Hash2CurveAppTag + bls12381.Hash2CurveScalarSuite,
+		},
+		{
+			name: "edwards25519", file: "edwards25519_xmd_sha512_ell2_ro.json", mk: sha512.New,
+			l: func() uint64 { return edwards25519Impl.CurveHasherParams{}.L() },
+			h2fBase: func(dst string, msg []byte, count int) []string {
+				u := make([]edwards25519Impl.Fp, count)
+				h2c.HashToField[*edwards25519Impl.Fp](u, edwards25519Impl.CurveHasherParams{}, dst, msg)
+				var out []string
+				for i := range u {
+					out = append(out, leHex(u[i].Bytes()))
+				}
+				return out
+			},
+			h2fSc: func(dst string, msg []byte, count int) []string {
+				u := make([]edwards25519Impl.Fq, count)
+				h2c.HashToField[*edwards25519Impl.Fq](u, edwards25519Impl.CurveHasherParams{}, dst, msg)
+				var out []string
+				for i := range u {
+					out = append(out, leHex(u[i].Bytes()))
+				}
+				return out
+			},
+			point: func(dst string, msg []byte) (string, error) {
+				p, err := edwards25519.NewCurve().HashWithDst(dst, msg)
+				if err != nil {
+					return "", err
+				}
+				x, _ := p.AffineX()
+				y, _ := p.AffineY()
+				return be(x.Bytes()) + "," + be(y.Bytes()), nil
+			},
+			baseHash: func(msg []byte) (string, error) {
+				e, err := edwards25519.NewBaseField().Hash(msg)
+				if err != nil {
+					return "", err
+				}
+				return be(e.Bytes()), nil
+			},
+			scalarHash: func(msg []byte) (string, error) {
+				e, err := edwards25519.NewScalarField().Hash(msg)
+				if err != nil {
+					return "", err
+				}
+				return be(e.Bytes()), nil
+			},
+			baseDst: base.Hash2CurveAppTag + edwards25519.Hash2CurveSuite, scalarDst: base.Hash2CurveAppTag + edwards25519.Hash2CurveScalarSuite,
 		},
 	}
 }
@@ -486,6 +535,10 @@ func refH2f(s *modelSuite, scalar bool, count int, dst string, msg []byte) strin
 		q, _ = new(big.Int).SetString("ffffffff00000001000000000000000000000000ffffffffffffffffffffffff", 16)
 	case s.name == "p256":
 		q, _ = new(big.Int).SetString("ffffffff00000000ffffffffffffffffbce6faada7179e84f3b9cac2fc632551", 16)
+	case s.name == "edwards25519" && !scalar:
+		q, _ = new(big.Int).SetString("7fffffffffffffffffffffffffffffffffffffffffffffffffffffffffffffed", 16)
+	case s.name == "edwards25519":
+		q, _ = new(big.Int).SetString("1000000000000000000000000000000014def9dea2f79cd65812631a5cf5d3ed", 16)
 	case !scalar:
 		q, _ = new(big.Int).SetString("1a0111ea397fe69a4b1ba7b6434bacd764774b84f38512bf6730d2a0f6b0f6241eabfffeb153ffffb9feffffffffaaab", 16)
 	default:
@@ -495,7 +548,11 @@ func refH2f(s *modelSuite, scalar bool, count int, dst string, msg []byte) strin
 	if s.name == "bls12381g1" {
 		L = 64
 	}
-	u := refExpand(expCase{kind: "xmd-sha256", dst: []byte(dst), msg: msg, n: count * L})
+	kind := "xmd-sha256"
+	if s.name == "edwards25519" {
+		kind = "xmd-sha512"
+	}
+	u := refExpand(expCase{kind: kind, dst: []byte(dst), msg: msg, n: count * L})
 	if u == "PANIC" {
 		return "PANIC"
 	}
